@@ -68,6 +68,8 @@ struct Ctx {
 	btc_sk: [SecretKey; 2],
 	btc_other: SecretKey,
 	t0: u64,
+	/// recorded dumps print each node's channel list in ARRIVAL order (the Vec as it is) — off in the asynchronous phases
+	ordered: std::cell::Cell<bool>,
 }
 
 #[derive(Clone, Copy, PartialEq, Debug)]
@@ -180,7 +182,7 @@ impl Ctx {
 		for (i, k) in ks.iter().enumerate() { rank.insert(k.0, i as u64 + 1); }
 		let t0 = SystemTime::now().duration_since(UNIX_EPOCH).unwrap().as_secs();
 		Ctx { node_sk: ks.iter().map(|k| k.1).collect(), node_id: ks.iter().map(|k| k.0).collect(), node_pk: ks.iter().map(|k| k.2).collect(), rank,
-			garbage_sk: SecretKey::from_slice(&[77; 32]).unwrap(), btc_sk: [SecretKey::from_slice(&[40; 32]).unwrap(), SecretKey::from_slice(&[39; 32]).unwrap()], btc_other: SecretKey::from_slice(&[41; 32]).unwrap(), secp, t0 }
+			garbage_sk: SecretKey::from_slice(&[77; 32]).unwrap(), btc_sk: [SecretKey::from_slice(&[40; 32]).unwrap(), SecretKey::from_slice(&[39; 32]).unwrap()], btc_other: SecretKey::from_slice(&[41; 32]).unwrap(), secp, t0, ordered: std::cell::Cell::new(true) }
 	}
 	fn sk_of(&self, n: u64) -> &SecretKey { if n >= 1 && n as usize <= NK { &self.node_sk[n as usize - 1] } else { &self.garbage_sk } }
 	fn id_of(&self, n: u64) -> NodeId { self.node_id[(n as usize - 1) % NK] }
@@ -413,7 +415,11 @@ impl Ctx {
 		m
 	}
 
-	fn dump(&self, g: &Graph, tomb: bool) -> String {
+	/// canonical dump, node channel lists sorted (what the oracles compare)
+	fn dump(&self, g: &Graph, tomb: bool) -> String { self.dump_o(g, tomb, false) }
+	/// the dump that is RECORDED and compared with the model: node channel lists in arrival order unless switched off
+	fn dump_rec(&self, g: &Graph, tomb: bool) -> String { self.dump_o(g, tomb, self.ordered.get()) }
+	fn dump_o(&self, g: &Graph, tomb: bool, ordered: bool) -> String {
 		let ro = g.read_only();
 		let mut chans: Vec<(u64, String)> = ro.channels().unordered_iter().map(|(scid, c)| {
 			let d = |u: &Option<lightning::routing::gossip::ChannelUpdateInfo>| match u { None => "-".to_string(), Some(u) => format!("{}/{}/{}/{}/{}/{}/{}/{}", u.last_update, b(u.enabled), u.cltv_expiry_delta, u.htlc_minimum_msat, u.htlc_maximum_msat, u.fees.base_msat, u.fees.proportional_millionths, b(u.last_update_message.is_some())) };
@@ -421,7 +427,7 @@ impl Ctx {
 		}).collect();
 		chans.sort();
 		let mut nodes: Vec<(u64, String)> = ro.nodes().unordered_iter().map(|(id, n)| {
-			let mut cs = n.channels.clone(); cs.sort();
+			let mut cs = n.channels.clone(); if !ordered { cs.sort(); }
 			let ann = match &n.announcement_info { None => "-".to_string(), Some(a) => { let rgb = a.rgb(); format!("{}/{}/{}", a.last_update(), ((rgb[0] as u64) << 16) | ((rgb[1] as u64) << 8) | rgb[2] as u64, b(a.announcement_message().is_some())) } };
 			(self.rank_of(id), format!("{}:[{}]:{}", self.rank_of(id), cs.iter().map(|c| c.to_string()).collect::<Vec<_>>().join(","), ann))
 		}).collect();
@@ -629,8 +635,9 @@ impl<'a> Runner<'a> {
 	}
 	fn dump(&mut self, g: &Graph, tomb: bool) -> String {
 		let d = self.ctx.dump(g, tomb);
+		let d_rec = self.ctx.dump_rec(g, tomb);
 		if tomb { let bad = self.ctx.stored_sigs_bad(g); for v in bad.iter() { if !self.last_bad.contains(v) { self.rec.oracle_fail(format!("WRONGLY SIGNED GOSSIP IN THE GRAPH: {}; graph: {}", v, d)); } } self.last_bad = bad; }
-		self.rec.case(if tomb { "dump" } else { "dumpp" }, &d, "dump", false);
+		self.rec.case(if tomb { "dump" } else { "dumpp" }, &d_rec, "dump", false);
 		d
 	}
 	/// (iii) the graph survives write/read
@@ -640,7 +647,7 @@ impl<'a> Runner<'a> {
 			Ok(g2) => {
 				let (a, b2) = (self.ctx.dump(g, false), self.ctx.dump(&g2, false));
 				if a != b2 || self.ctx.canon_bytes(g) != self.ctx.canon_bytes(&g2) || *g != g2 { self.rec.oracle_fail(format!("NetworkGraph::read(write(g)) differs ({}): {} vs {}", what, a, b2)); }
-				self.rec.case("dumpp", &b2, "dump-after-read", false);
+				self.rec.case("dumpp", &self.ctx.dump_rec(&g2, false), "dump-after-read", false);
 			},
 			Err(e) => self.rec.oracle_fail(format!("NetworkGraph::read(write(g)) failed ({}): {:?}; graph {}", what, e, self.ctx.dump(g, false))),
 		}
@@ -859,7 +866,24 @@ fn main() {
 			}
 			stats.insert("rgs_incremental_vs_older_p2p_update_order_dependent_on_real_code", (dumps[0] != dumps[1]) as u64);
 		}
+		// (4) the same snapshot twice WITH the final pruning: the first application prunes a stale channel the snapshot
+		// lists, the second one re-creates it from the snapshot's announcement (theorem rgs_snapshot_with_pruning_not_idempotent)
+		{
+			let g = new_graph();
+			r.rec.directive("reset");
+			let old = ctx.t0 - 100_000;
+			r.exec(&g, &Op::Cp { scid: 3, cap: None, recv: old, n1: 1, n2: 2 }, "E:");
+			for dir in [false, true] { r.exec(&g, &Op::Cu { scid: 3, dir, disabled: false, ts: old, cltv: 40, min: 1, max: 4000, base: 1, prop: 2, chain_ok: true, dont_fwd: false, verify: false, signer: 0 }, "E:"); }
+			let prune_at = ctx.t0 + STALE + WINDOW + 100;
+			let s4 = Op::Rgs { latest: ctx.t0 + TRACK + 4000, now: Some(prune_at), d: [40, 1, 10, 20, 900_000], nodes: vec![0; NK], anns: vec![(3, None, 1, 2)], upds: vec![(3, 128, [0, 0, 0, 0, 0])] };
+			r.exec(&g, &s4, "E:");
+			let d1 = r.dump(&g, true);
+			r.exec(&g, &s4, "E:");
+			let d2 = r.dump(&g, true);
+			stats.insert("rgs_snapshot_with_pruning_not_idempotent_on_real_code", (d1.starts_with("C  |") && d1.contains("RC 3@") && d2.starts_with("C 3:1:2:-:")) as u64);
+		}
 	}
+	ctx.ordered.set(false); // phases F and G: node channel lists compared as sets (replays inside one `pc` are not ordered by the model)
 	// ---------------- phase F: ASYNCHRONOUS UTXO lookups, arbitrary interleavings --------------------------
 	// One graph behind one P2PGossipSync whose UtxoLookup is scripted: announcements whose lookup answers
 	// UtxoResult::Async (fresh UtxoFuture each), valid / wrongly signed / re-signed / stale / duplicate updates and
@@ -872,7 +896,7 @@ fn main() {
 		let (mut parked_replays, mut forged_while_pending) = (0u64, 0u64);
 		for _ in 0..n_f {
 			let g = new_graph();
-			r.rec.directive("reset");
+			r.rec.directive("reset"); r.rec.directive("unordered");
 			let env = AsyncEnv::new(&g, rng.chance(1, 6));
 			let mut next_fid = 1u64;
 			let mut open: Vec<u64> = vec![];
@@ -938,7 +962,7 @@ fn main() {
 		// the pending-lookup limit: 34 distinct SCIDs pending, too_many_checks_pending queried after each
 		{
 			let g = new_graph();
-			r.rec.directive("reset");
+			r.rec.directive("reset"); r.rec.directive("unordered");
 			let env = AsyncEnv::new(&g, false);
 			let mut high_from = 0u64;
 			for i in 1..=35u64 {
@@ -1003,12 +1027,12 @@ fn main() {
 			script.push(Op::Pc);
 			// run 1: asynchronous
 			let ga = new_graph();
-			r.rec.directive("reset");
+			r.rec.directive("reset"); r.rec.directive("unordered");
 			{ let env = AsyncEnv::new(&ga, false); for op in &script { r.exec_in(&ga, Some(&env), op, "G:"); } }
 			let da = r.dump(&ga, true);
 			// run 2: the same answers, synchronously
 			let gs = new_graph();
-			r.rec.directive("reset");
+			r.rec.directive("reset"); r.rec.directive("unordered");
 			{
 				let env = AsyncEnv::new(&gs, false);
 				for op in &script {
@@ -1028,11 +1052,66 @@ fn main() {
 		stats.insert("sync_vs_async_scripts", n_g);
 		stats.insert("sync_vs_async_scripts_with_invalid_messages_that_differ", differ_with_invalid);
 	}
+	ctx.ordered.set(true);
+	// ---------------- phase H: a restart (NetworkGraph::write, then ::read) in the middle of a history -------
+	// The library keeps working on the graph it read back: channels and nodes must be what they were, the
+	// tombstones are gone (they are not persisted) — an announcement refused as RecentlyRemoved before the restart
+	// is accepted after it. Differential per op (`restart` = Model/GossipPersist.lean) + the read == written oracle.
+	{
+		let n_h = if args.thorough { 6000 * args.scale } else { 500 * args.scale };
+		let gen_h = Gen { scids: 4 };
+		let mut reaccepted = 0u64;
+		for _ in 0..n_h {
+			let mut g = new_graph();
+			r.rec.directive("reset");
+			let mut last_explicit_prune: Option<u64> = None;
+			let mut wall_tombs = false;
+			let n_ops = 10 + rng.below(30);
+			let restart_at = rng.below(n_ops);
+			let mut anns: Vec<Op> = vec![];
+			let mut refused: Vec<String> = vec![];
+			for k in 0..n_ops {
+				if k == restart_at || rng.chance(1, 30) {
+					let before = ctx.dump(&g, false);
+					let bytes = g.encode();
+					match <Graph as ReadableArgs<&'static NullLogger>>::read(&mut &bytes[..], &LOGGER) {
+						Ok(g2) => {
+							if before != ctx.dump(&g2, false) || ctx.canon_bytes(&g) != ctx.canon_bytes(&g2) || g != g2 { r.rec.oracle_fail(format!("NetworkGraph::read(write(g)) differs (phase H): {} vs {}", before, ctx.dump(&g2, false))); }
+							let (rc, rn) = g2.verif_removed_entries();
+							if !rc.is_empty() || !rn.is_empty() { r.rec.oracle_fail(format!("a graph read back from its serialization carries tombstones (the model says they are not persisted): {}", ctx.dump(&g2, true))); }
+							g = g2;
+							r.rec.case("restart", "ok", "H:restart:ok", true);
+						},
+						Err(e) => { r.rec.oracle_fail(format!("NetworkGraph::read(write(g)) failed (phase H): {:?}; graph {}", e, before)); r.rec.case("restart", "err InvalidValue", "H:restart:err", true); },
+					}
+					r.dump(&g, true);
+					// an announcement that was refused as recently removed, again right after the restart
+					if let Some(a) = anns.iter().rev().find(|a| refused.contains(&ctx.line(a))) { let a = a.clone(); if r.exec(&g, &a, "H:after:") == "ok" { reaccepted += 1; } }
+					refused.clear();
+				}
+				let op = match rng.below(100) {
+					0..=24 => { let a = if !anns.is_empty() && rng.chance(2, 5) { rng.pick(&anns).clone() } else { gen_h.ca(&mut rng, true) }; anns.push(a.clone()); a },
+					25..=54 => gen_h.cu(&mut rng, &ctx, &g, &tm, None),
+					55..=66 => gen_h.na(&mut rng, &tm),
+					67..=81 => Op::Fc { scid: 1 + rng.below(gen_h.scids) },
+					82..=89 => Op::Fn { id: 1 + rng.below(NK as u64) },
+					_ => Op::Pr { t: tm.prune_time(&mut rng, last_explicit_prune, wall_tombs) },
+				};
+				match &op { Op::Pr { t } if *t >= STALE && *t <= u32::MAX as u64 => last_explicit_prune = Some(*t), Op::Fc { .. } | Op::Fn { .. } => wall_tombs = true, _ => {} }
+				let ans = r.exec(&g, &op, "H:");
+				if ans.contains("RecentlyRemoved") { refused.push(ctx.line(&op)); }
+				if k % 8 == 7 { r.dump(&g, true); }
+			}
+			r.dump(&g, true);
+		}
+		stats.insert("restart_histories", n_h);
+		stats.insert("announcements_refused_as_recently_removed_and_accepted_right_after_the_restart", reaccepted);
+	}
 	let elapsed = SystemTime::now().duration_since(UNIX_EPOCH).unwrap().as_secs() - ctx.t0;
 	if elapsed >= WINDOW - 600 { r.rec.oracle_fail(format!("harness ran {}s: wall-clock canonicalisation window exceeded (machinery, not the library)", elapsed)); }
-	rec.notes.insert("rule".into(), format!("per message set: phase A = random interleaving of signed/unsigned/forged/stale/duplicate/conflicting gossip with permanent failures and pruning at threshold times (differential + oracles: forged or rejected message leaves the graph unchanged, last_update monotone); phase B = {} random admissible orders of one message multiset with distinct timestamps (oracle: equal dumps and byte-identical canonical encodings) ; phase C = one random inadmissible order; phase A also applies generated version-2 rapid-gossip-sync snapshots through RapidGossipSync::update_network_graph_no_std (oracle: no stored update / node announcement replaced by older-or-equal data); phase E = snapshots applied twice (idempotence oracle), tombstone and incremental-order scenarios; write/read round trip after A and B; phase F = asynchronous UTXO lookups (scripted UtxoLookup answering UtxoResult::Async, futures resolved and check_resolved_futures run at scripted points, valid / wrongly signed / re-signed gossip in between; oracle after every op: every stored signed message verifies with secp256k1 against the announced keys); phase G = all-valid scripts delivered with asynchronous vs synchronous answers must give equal graphs. distinct = distinct op-line texts", n_orders));
+	rec.notes.insert("rule".into(), format!("per message set: phase A = random interleaving of signed/unsigned/forged/stale/duplicate/conflicting gossip with permanent failures and pruning at threshold times (differential + oracles: forged or rejected message leaves the graph unchanged, last_update monotone); phase B = {} random admissible orders of one message multiset with distinct timestamps (oracle: equal dumps and byte-identical canonical encodings) ; phase C = one random inadmissible order; phase A also applies generated version-2 rapid-gossip-sync snapshots through RapidGossipSync::update_network_graph_no_std (oracle: no stored update / node announcement replaced by older-or-equal data); phase E = snapshots applied twice (idempotence oracle), tombstone and incremental-order scenarios; write/read round trip after A and B; phase F = asynchronous UTXO lookups (scripted UtxoLookup answering UtxoResult::Async, futures resolved and check_resolved_futures run at scripted points, valid / wrongly signed / re-signed gossip in between; oracle after every op: every stored signed message verifies with secp256k1 against the announced keys); phase G = all-valid scripts delivered with asynchronous vs synchronous answers must give equal graphs; phase H = histories with a restart (write, read, continue on the graph read back) in the middle. distinct = distinct op-line texts", n_orders));
 	for (k, v) in stats.iter() { rec.notes.insert((*k).into(), v.to_string()); }
 	rec.notes.insert("not_exercised".into(), "production-only wall-clock freshness test of update_channel_internal (cfg not(_test_utils)); asynchronous UTXO lookups: dropped UtxoFutures (Weak::upgrade failure arms), a future shared by two lookups, UnknownChain / wrong-script answers, rapid-gossip-sync snapshots while a lookup is pending; rapid-gossip-sync: version-1 snapshots, node addresses / feature changes (not part of the dump), the forwards-compatibility additional-data paths of updates".into());
-	rec.notes.insert("node_channel_list_order".into(), "NodeInfo.channels is kept in arrival order by the library (and compared in that order by NodeInfo::eq / written in that order); the oracle and the model compare it as a set".into());
+	rec.notes.insert("node_channel_list_order".into(), "NodeInfo.channels is kept in arrival order by the library (and compared in that order by NodeInfo::eq / written in that order); the recorded dumps of phases A-E and H print it in that order and the model reproduces it (Model/GossipOrder.lean); the order-independence oracle and phases F/G compare it as a set".into());
 	rec.finish();
 }
